@@ -2,85 +2,54 @@ package main
 
 // C14 — exit-sequence skeletons of every package's (*Minifier).Minify  →  lean/Verif/Gen/ExitPaths.lean
 //
-// For each of json, xml, svg, html, css, js the body of `(*Minifier).Minify` is walked.  Every statement
-// list that contains a `return` (directly, or inside one of the recognised one-line `if … { return … }`
-// shapes) is emitted as an *exit block*: the list of atoms of its statements, in source order.
-// The translator does not know which blocks are "right"; it only names shapes.  Anything it does not
-// recognise becomes `other "<source text>"`, which no Lean well-formedness predicate accepts.
+// For each of json, xml, svg, html, css, js the body of `(*Minifier).Minify` is walked.  Every statement list that contains
+// a `return` is emitted as an *exit block*: the list of atoms of its statements, in source order.  The translator does not
+// know which blocks are "right"; it only names what a statement does.  Anything it does not recognise becomes
+// `other "<source text>"`, which no Lean well-formedness predicate accepts.
 //
 // Atoms (Verif.Skel.XAtom):
-//   work                  statement without any return (may write to w; write errors are dropped)
-//   probeWrite            `_, err := w.Write(nil)` on the writer parameter
-//   returnIfErr           `if err != nil { return err }` for the err of the directly preceding probe
-//   writeReturnIfErr      `if _, err := w.Write(x); err != nil { return err }` (a checked ordinary write)
-//   returnNilIfEOF        `if X.Err() == io.EOF { return nil }`
-//   returnLexErrIfNotEOF  `if X.Err() != io.EOF { return X.Err() }`
-//   returnLexErr          `return X.Err()`
+//   work                  statement(s) without any return (may write to w; write errors are dropped); consecutive ones are one atom
+//   probeWrite            `_, e := w.Write(nil)` on the writer parameter
+//   returnIfErr           `if e != nil { return e }` for the e of the directly preceding probe
+//   writeReturnIfErr      `if _, e := w.Write(x); e != nil { return e }` (a checked ordinary write)
+//   returnNilIfEOF        `if L == io.EOF { return nil }`        L: a call `X.Err()` or a value holding one
+//   returnLexErrIfNotEOF  `if L != io.EOF { return L }`
+//   returnLexErr          `return L`
 //   returnNil             `return nil`
-//   parse                 `ast, err := js.Parse(…)`
-//   returnIfParseErr      `if err != nil { return err }` directly after parse
-//   returnSubErr          return of a sub-minifier's error in a context where it is known non-nil
+//   parse                 `tree, e := js.Parse(…)`
+//   returnIfParseErr      `if e != nil { return e }` directly after parse
+//   returnSubErr          return of a sub-minifier's error where it is known non-nil, as is or through a function that
+//                         cannot turn a non-nil error into nil (minify.UpdateErrorPosition, a local wrapper around it, …)
 //   other s               anything else that contains or is a return
+//
+// Statements are recognised by what they refer to (go/types objects), not by spelling: the writer is the io.Writer
+// parameter (or a once-defined `write := w.Write`), error variables are whatever variable of type error the statement
+// defines, `io.EOF` is the variable EOF of package io under any import name, `nil != e` is `e != nil`.  Equivalent layouts
+// give the same atoms: `x := f(); if x != nil {…}` = `if x := f(); x != nil {…}`; `if c { return … } else { B }` = `if c { return … }; B`;
+// `_, e = w.Write(nil); return e` = probe, returnIfErr, returnNil; `return helper(w, l.Err())` with a helper declared in the
+// module is replaced by the helper's own statements (the writer and the lexer error are followed into its parameters).
 
 import (
-	"bytes"
 	"fmt"
 	"go/ast"
-	"go/printer"
 	"go/token"
+	"go/types"
 	"strings"
+
+	"golang.org/x/tools/go/packages"
 )
 
 var c14Pkgs = []string{"css", "html", "js", "json", "svg", "xml"}
 
-type c14Walker struct {
-	r      *Repo
-	wName  string // name of the io.Writer parameter
-	blocks [][]string
-}
-
+// c14SrcN: source text of a node with all white space runs collapsed, cut after max bytes
 func c14Src(fset *token.FileSet, n ast.Node) string { return c14SrcN(fset, n, 90) }
 
-// c14SrcN: source text of a node with all white space runs collapsed, cut after max bytes
 func c14SrcN(fset *token.FileSet, n ast.Node, max int) string {
-	var b bytes.Buffer
-	printer.Fprint(&b, fset, n)
-	s := strings.Join(strings.Fields(b.String()), " ")
+	s := nodeText(fset, n)
 	if len(s) > max {
 		s = s[:max] + "…"
 	}
 	return s
-}
-
-func isIdent(e ast.Expr, name string) bool {
-	id, ok := e.(*ast.Ident)
-	return ok && id.Name == name
-}
-
-func isSel(e ast.Expr, x, sel string) bool {
-	s, ok := e.(*ast.SelectorExpr)
-	return ok && s.Sel.Name == sel && isIdent(s.X, x)
-}
-
-// isErrCall: `<anything>.Err()`
-func isErrCall(e ast.Expr) bool {
-	c, ok := e.(*ast.CallExpr)
-	if !ok || len(c.Args) != 0 {
-		return false
-	}
-	s, ok := c.Fun.(*ast.SelectorExpr)
-	return ok && s.Sel.Name == "Err"
-}
-
-func sameExpr(fset *token.FileSet, a, b ast.Expr) bool { return c14Src(fset, a) == c14Src(fset, b) }
-
-// binCond matches `L op R`
-func binCond(e ast.Expr, op token.Token) (l, r ast.Expr, ok bool) {
-	b, ok := e.(*ast.BinaryExpr)
-	if !ok || b.Op != op {
-		return nil, nil, false
-	}
-	return b.X, b.Y, true
 }
 
 // containsReturn reports whether the node contains a return statement outside function literals.
@@ -98,30 +67,163 @@ func containsReturn(n ast.Node) bool {
 	return found
 }
 
-// isProbeCall: `w.Write(nil)` on the writer parameter
-func (c *c14Walker) isProbeCall(e ast.Expr) bool {
-	call, ok := e.(*ast.CallExpr)
-	if !ok || len(call.Args) != 1 || !isIdent(call.Args[0], "nil") {
+type c14Walker struct {
+	e       *tenv
+	p       *packages.Package
+	single  map[types.Object]ast.Expr
+	writers map[types.Object]bool // objects standing for the io.Writer the function must report failures of
+	lexErrs map[types.Object]bool // objects holding the value of a lexer / parser Err() call
+	blocks  [][]string
+	depth   int
+	// state of the list being walked
+	probeErr types.Object // error variable of the directly preceding probe
+	parseErr types.Object
+}
+
+func (c *c14Walker) info() *types.Info { return c.p.TypesInfo }
+
+func (c *c14Walker) obj(x ast.Expr) types.Object {
+	id, ok := unparen(x).(*ast.Ident)
+	if !ok {
+		return nil
+	}
+	if o := c.info().Uses[id]; o != nil {
+		return o
+	}
+	return c.info().Defs[id]
+}
+
+func (c *c14Walker) isNil(x ast.Expr) bool {
+	_, ok := c.obj(x).(*types.Nil)
+	return ok
+}
+
+func isErrorType(t types.Type) bool {
+	return t != nil && types.Identical(t, types.Universe.Lookup("error").Type())
+}
+
+func (c *c14Walker) isEOF(x ast.Expr) bool {
+	var id *ast.Ident
+	switch v := unparen(x).(type) {
+	case *ast.SelectorExpr:
+		id = v.Sel
+	case *ast.Ident:
+		id = v
+	default:
 		return false
 	}
-	return isSel(call.Fun, c.wName, "Write")
+	o, ok := c.info().Uses[id].(*types.Var)
+	return ok && o.Name() == "EOF" && o.Pkg() != nil && o.Pkg().Path() == "io"
 }
 
-func (c *c14Walker) isWriteCall(e ast.Expr) bool {
-	call, ok := e.(*ast.CallExpr)
-	return ok && len(call.Args) == 1 && isSel(call.Fun, c.wName, "Write")
-}
-
-// `_, err := <call>` / `_, err = <call>`
-func blankErrAssign(s ast.Stmt) (ast.Expr, bool) {
-	a, ok := s.(*ast.AssignStmt)
-	if !ok || len(a.Lhs) != 2 || len(a.Rhs) != 1 || !isIdent(a.Lhs[0], "_") || !isIdent(a.Lhs[1], "err") {
-		return nil, false
+// writeCall: a call of Write on the writer (directly or through a once-defined method value)
+func (c *c14Walker) writeCall(x ast.Expr) (probe, ok bool) {
+	call, isCall := unparen(x).(*ast.CallExpr)
+	if !isCall || len(call.Args) != 1 {
+		return false, false
 	}
-	return a.Rhs[0], true
+	fun := unparen(call.Fun)
+	if id, isId := fun.(*ast.Ident); isId {
+		if def, has := c.single[c.info().Uses[id]]; has {
+			fun = unparen(def)
+		}
+	}
+	sel, isSel := fun.(*ast.SelectorExpr)
+	if !isSel || sel.Sel.Name != "Write" || !c.writers[c.obj(sel.X)] {
+		return false, false
+	}
+	return c.isNil(call.Args[0]), true
 }
 
-// single `return <e>` body
+// lexErr: x is `X.Err()` (method Err, no arguments, result error) or a variable holding one; returns a key for comparison
+func (c *c14Walker) lexErr(x ast.Expr) (string, bool) {
+	x = unparen(x)
+	if o := c.obj(x); o != nil {
+		if c.lexErrs[o] {
+			return fmt.Sprintf("obj@%d", o.Pos()), true
+		}
+		if def, has := c.single[o]; has {
+			return c.lexErr(def)
+		}
+		return "", false
+	}
+	call, ok := x.(*ast.CallExpr)
+	if !ok || len(call.Args) != 0 {
+		return "", false
+	}
+	sel, ok := unparen(call.Fun).(*ast.SelectorExpr)
+	if !ok || sel.Sel.Name != "Err" || !isErrorType(c.info().TypeOf(call)) {
+		return "", false
+	}
+	recv := types.ExprString(sel.X)
+	if o := c.obj(sel.X); o != nil {
+		recv = fmt.Sprintf("obj@%d", o.Pos())
+	}
+	return "call:" + recv, true
+}
+
+// errCmpNil: `E op nil` / `nil op E` with E a variable of type error; returns E's object
+func (c *c14Walker) errCmpNil(cond ast.Expr, op token.Token) types.Object {
+	b, ok := unparen(cond).(*ast.BinaryExpr)
+	if !ok || b.Op != op {
+		return nil
+	}
+	for _, pr := range [][2]ast.Expr{{b.X, b.Y}, {b.Y, b.X}} {
+		if c.isNil(pr[1]) {
+			if o, ok := c.obj(pr[0]).(*types.Var); ok && isErrorType(o.Type()) {
+				return o
+			}
+		}
+	}
+	return nil
+}
+
+// eofCmp: `L op io.EOF` / `io.EOF op L`; returns the key of L
+func (c *c14Walker) eofCmp(cond ast.Expr, op token.Token) (string, bool) {
+	b, ok := unparen(cond).(*ast.BinaryExpr)
+	if !ok || b.Op != op {
+		return "", false
+	}
+	for _, pr := range [][2]ast.Expr{{b.X, b.Y}, {b.Y, b.X}} {
+		if c.isEOF(pr[1]) {
+			if k, ok := c.lexErr(pr[0]); ok {
+				return k, true
+			}
+		}
+	}
+	return "", false
+}
+
+// blankErrAssign: `_, E := <rhs>` / `_, E = <rhs>`
+func (c *c14Walker) blankErrAssign(s ast.Stmt) (types.Object, ast.Expr, bool) {
+	a, ok := s.(*ast.AssignStmt)
+	if !ok || len(a.Lhs) != 2 || len(a.Rhs) != 1 {
+		return nil, nil, false
+	}
+	if id, ok := a.Lhs[0].(*ast.Ident); !ok || id.Name != "_" {
+		return nil, nil, false
+	}
+	o, ok := c.obj(a.Lhs[1]).(*types.Var)
+	if !ok || !isErrorType(o.Type()) {
+		return nil, nil, false
+	}
+	return o, a.Rhs[0], true
+}
+
+// errInit: `E := <call>` defining one variable of type error
+func (c *c14Walker) errInit(s ast.Stmt) (types.Object, ast.Expr, bool) {
+	a, ok := s.(*ast.AssignStmt)
+	if !ok || a.Tok != token.DEFINE || len(a.Lhs) != 1 || len(a.Rhs) != 1 {
+		return nil, nil, false
+	}
+	o, ok := c.obj(a.Lhs[0]).(*types.Var)
+	if !ok || !isErrorType(o.Type()) {
+		return nil, nil, false
+	}
+	_, isCall := unparen(a.Rhs[0]).(*ast.CallExpr)
+	return o, a.Rhs[0], isCall
+}
+
 func singleReturn(b *ast.BlockStmt) (ast.Expr, bool) {
 	if b == nil || len(b.List) != 1 {
 		return nil, false
@@ -133,40 +235,154 @@ func singleReturn(b *ast.BlockStmt) (ast.Expr, bool) {
 	return r.Results[0], true
 }
 
-// isErrOrUpdated: `err` or `minify.UpdateErrorPosition(err, …)`
-func isErrOrUpdated(e ast.Expr) bool {
-	if isIdent(e, "err") {
+// propagates: e is the error variable errObj itself, or a call that cannot turn a non-nil errObj into nil
+func (c *c14Walker) propagates(e ast.Expr, errObj types.Object) bool {
+	if c.obj(e) == errObj && errObj != nil {
 		return true
 	}
-	call, ok := e.(*ast.CallExpr)
-	if !ok || len(call.Args) < 1 || !isIdent(call.Args[0], "err") {
+	call, ok := unparen(e).(*ast.CallExpr)
+	if !ok {
 		return false
 	}
-	return isSel(call.Fun, "minify", "UpdateErrorPosition")
-}
-
-func isErrNeNil(e ast.Expr) bool {
-	l, r, ok := binCond(e, token.NEQ)
-	return ok && isIdent(l, "err") && isIdent(r, "nil")
-}
-func isErrEqNil(e ast.Expr) bool {
-	l, r, ok := binCond(e, token.EQL)
-	return ok && isIdent(l, "err") && isIdent(r, "nil")
-}
-
-// `err := <call>` as the init of an if
-func errInit(s ast.Stmt) (ast.Expr, bool) {
-	a, ok := s.(*ast.AssignStmt)
-	if !ok || a.Tok != token.DEFINE || len(a.Lhs) != 1 || len(a.Rhs) != 1 || !isIdent(a.Lhs[0], "err") {
-		return nil, false
+	fn := calleeOf(c.info(), call)
+	if fn == nil {
+		return false
 	}
-	_, isCall := a.Rhs[0].(*ast.CallExpr)
-	return a.Rhs[0], isCall
+	for i, a := range call.Args {
+		if c.obj(a) == errObj && errObj != nil && c.e.keepsNonNil(fn, i, 0) {
+			return true
+		}
+	}
+	return false
 }
 
-// atoms of one statement; nonNil: `err` is known to be non-nil here; prev: atoms emitted so far in this list
-func (c *c14Walker) stmtAtoms(s ast.Stmt, nonNil bool, prev []string) []string {
-	fset := c.r.Fset
+// keepsNonNil: every return of fn yields a non-nil error when parameter idx is a non-nil error
+func (e *tenv) keepsNonNil(fn *types.Func, idx int, depth int) bool {
+	if fn.Pkg() != nil && isStdlibPath(fn.Pkg().Path()) {
+		switch fn.Pkg().Path() + "." + fn.Name() {
+		case "fmt.Errorf", "errors.Join":
+			return true
+		}
+		return false
+	}
+	ref, ok := e.funcIndex()[fn.Origin()]
+	if !ok || ref.decl.Body == nil || depth > 3 {
+		return false
+	}
+	info := ref.pkg.TypesInfo
+	var param types.Object
+	i := 0
+	for _, f := range ref.decl.Type.Params.List {
+		for _, n := range f.Names {
+			if i == idx {
+				param = info.Defs[n]
+			}
+			i++
+		}
+	}
+	if param == nil {
+		return false
+	}
+	// values derived from the parameter by a successful type assertion: `p, ok := err.(*T)` used where ok holds
+	derived := map[types.Object]bool{param: true}
+	ast.Inspect(ref.decl.Body, func(n ast.Node) bool {
+		if a, ok := n.(*ast.AssignStmt); ok && len(a.Rhs) == 1 && len(a.Lhs) >= 1 {
+			if ta, ok := unparen(a.Rhs[0]).(*ast.TypeAssertExpr); ok && ta.Type != nil {
+				if id, ok := unparen(ta.X).(*ast.Ident); ok && derived[info.Uses[id]] {
+					if l, ok := a.Lhs[0].(*ast.Ident); ok {
+						if o := info.Defs[l]; o != nil {
+							derived[o] = true
+						}
+					}
+				}
+			}
+		}
+		return true
+	})
+	okAll, any := true, false
+	ast.Inspect(ref.decl.Body, func(n ast.Node) bool {
+		if _, isLit := n.(*ast.FuncLit); isLit {
+			return false
+		}
+		ret, ok := n.(*ast.ReturnStmt)
+		if !ok {
+			return true
+		}
+		any = true
+		if len(ret.Results) != 1 {
+			okAll = false
+			return false
+		}
+		r := unparen(ret.Results[0])
+		switch v := r.(type) {
+		case *ast.Ident:
+			if !derived[info.Uses[v]] {
+				okAll = false
+			}
+		case *ast.UnaryExpr:
+			if _, isLit := unparen(v.X).(*ast.CompositeLit); !(v.Op == token.AND && isLit) {
+				okAll = false
+			}
+		case *ast.CallExpr:
+			f2 := calleeOf(info, v)
+			good := false
+			if f2 != nil {
+				for j, a := range v.Args {
+					if id, ok := unparen(a).(*ast.Ident); ok && derived[info.Uses[id]] && e.keepsNonNil(f2, j, depth+1) {
+						good = true
+					}
+				}
+			}
+			if !good {
+				okAll = false
+			}
+		default:
+			okAll = false
+		}
+		return okAll
+	})
+	return okAll && any
+}
+
+func nodeText(fset *token.FileSet, n ast.Node) string {
+	var b strings.Builder
+	printerFprint(&b, fset, n)
+	return strings.Join(strings.Fields(b.String()), " ")
+}
+
+// normalise a statement list: (N1) `if c { …return } else { B }` → `if c { …return }` followed by B;
+// (N2) `E := call` directly followed by `if E != nil …` (no init of its own) → `if E := call; E != nil …`
+func (c *c14Walker) normalise(list []ast.Stmt) []ast.Stmt {
+	var out []ast.Stmt
+	for i := 0; i < len(list); i++ {
+		s := list[i]
+		if o, _, ok := c.errInit(s); ok && i+1 < len(list) {
+			if is, ok := list[i+1].(*ast.IfStmt); ok && is.Init == nil && (c.errCmpNil(is.Cond, token.NEQ) == o || c.errCmpNil(is.Cond, token.EQL) == o) {
+				merged := *is
+				merged.Init = s
+				s = &merged
+				i++
+			}
+		}
+		if is, ok := s.(*ast.IfStmt); ok && is.Else != nil && len(is.Body.List) > 0 {
+			if _, isRet := is.Body.List[len(is.Body.List)-1].(*ast.ReturnStmt); isRet {
+				if eb, ok := is.Else.(*ast.BlockStmt); ok {
+					flat := *is
+					flat.Else = nil
+					out = append(out, &flat)
+					out = append(out, c.normalise(eb.List)...)
+					continue
+				}
+			}
+		}
+		out = append(out, s)
+	}
+	return out
+}
+
+// atoms of one statement; nonNil: error objects known to be non-nil here; prev: atoms emitted so far in this list
+func (c *c14Walker) stmtAtoms(s ast.Stmt, nonNil map[types.Object]bool, prev []string) []string {
+	fset := c.e.r.Fset
 	other := func() []string { return []string{"other " + leanStr(c14Src(fset, s))} }
 	last := ""
 	if len(prev) > 0 {
@@ -179,57 +395,100 @@ func (c *c14Walker) stmtAtoms(s ast.Stmt, nonNil bool, prev []string) []string {
 		}
 		e := st.Results[0]
 		switch {
-		case isIdent(e, "nil"):
+		case c.isNil(e):
 			return []string{"returnNil"}
-		case isErrCall(e):
+		case func() bool { _, ok := c.lexErr(e); return ok }():
 			return []string{"returnLexErr"}
-		case nonNil && isErrOrUpdated(e):
-			return []string{"returnSubErr"}
+		case last == "probeWrite" && c.probeErr != nil && c.obj(e) == c.probeErr:
+			// `_, e = w.Write(nil); return e`: the probe's error if there is one, nil otherwise
+			return []string{"returnIfErr", "returnNil"}
+		}
+		for o := range nonNil {
+			if c.propagates(e, o) {
+				return []string{"returnSubErr"}
+			}
+		}
+		if as, ok := c.inlineHelper(e); ok {
+			return as
 		}
 		return other()
 	case *ast.AssignStmt:
-		if rhs, ok := blankErrAssign(st); ok && c.isProbeCall(rhs) {
-			return []string{"probeWrite"}
+		// `lexErr := l.Err()`: reads the lexer's error, cannot write to w — no atom of its own
+		if len(st.Lhs) == 1 && len(st.Rhs) == 1 && st.Tok == token.DEFINE {
+			if call, isCall := unparen(st.Rhs[0]).(*ast.CallExpr); isCall {
+				if _, ok := c.lexErr(call); ok {
+					if o := c.obj(st.Lhs[0]); o != nil {
+						if _, once := c.single[o]; once {
+							return nil
+						}
+					}
+				}
+			}
 		}
-		if len(st.Lhs) == 2 && len(st.Rhs) == 1 && isIdent(st.Lhs[1], "err") {
-			if call, ok := st.Rhs[0].(*ast.CallExpr); ok && isSel(call.Fun, "js", "Parse") {
-				return []string{"parse"}
+		if o, rhs, ok := c.blankErrAssign(st); ok {
+			if probe, isW := c.writeCall(rhs); isW && probe {
+				c.probeErr = o
+				return []string{"probeWrite"}
+			}
+		}
+		if len(st.Lhs) == 2 && len(st.Rhs) == 1 {
+			if o, ok := c.obj(st.Lhs[1]).(*types.Var); ok && isErrorType(o.Type()) {
+				if call, ok := unparen(st.Rhs[0]).(*ast.CallExpr); ok {
+					if fn := calleeOf(c.info(), call); fn != nil && fn.Name() == "Parse" && fn.Pkg() != nil && fn.Pkg().Path() == "github.com/tdewolff/parse/v2/js" {
+						c.parseErr = o
+						return []string{"parse"}
+					}
+				}
 			}
 		}
 	case *ast.IfStmt:
 		if st.Else == nil {
 			ret, single := singleReturn(st.Body)
 			if single && st.Init != nil {
-				if rhs, ok := blankErrAssign(st.Init); ok && isErrNeNil(st.Cond) && isIdent(ret, "err") {
-					if c.isProbeCall(rhs) {
-						return []string{"probeWrite", "returnIfErr"}
-					}
-					if c.isWriteCall(rhs) {
+				if o, rhs, ok := c.blankErrAssign(st.Init); ok && c.errCmpNil(st.Cond, token.NEQ) == o && c.obj(ret) == o {
+					if probe, isW := c.writeCall(rhs); isW {
+						if probe {
+							return []string{"probeWrite", "returnIfErr"}
+						}
 						return []string{"writeReturnIfErr"}
 					}
 				}
-				if rhs, ok := errInit(st.Init); ok && isErrNeNil(st.Cond) && isErrOrUpdated(ret) && !c.isWriteCall(rhs) {
-					// `if err := sub(...); err != nil { return err' }` — the call may write to w
-					return []string{"work", "returnSubErr"}
+				if o, rhs, ok := c.errInit(st.Init); ok && c.errCmpNil(st.Cond, token.NEQ) == o && c.propagates(ret, o) {
+					if _, isW := c.writeCall(rhs); !isW {
+						// `if e := sub(...); e != nil { return e' }` — the call may write to w
+						return []string{"work", "returnSubErr"}
+					}
 				}
 			}
 			if single && st.Init == nil {
-				if isErrNeNil(st.Cond) && isIdent(ret, "err") {
-					if last == "probeWrite" {
+				if o := c.errCmpNil(st.Cond, token.NEQ); o != nil && c.obj(ret) == o {
+					if last == "probeWrite" && o == c.probeErr {
 						return []string{"returnIfErr"}
 					}
-					if last == "parse" {
+					if last == "parse" && o == c.parseErr {
 						return []string{"returnIfParseErr"}
 					}
 				}
-				if l, r, ok := binCond(st.Cond, token.EQL); ok && isErrCall(l) && isSel(r, "io", "EOF") && isIdent(ret, "nil") {
+				if _, ok := c.eofCmp(st.Cond, token.EQL); ok && c.isNil(ret) {
 					return []string{"returnNilIfEOF"}
 				}
-				if l, r, ok := binCond(st.Cond, token.NEQ); ok && isErrCall(l) && isSel(r, "io", "EOF") && isErrCall(ret) && sameExpr(fset, l, ret) {
-					return []string{"returnLexErrIfNotEOF"}
+				if k, ok := c.eofCmp(st.Cond, token.NEQ); ok {
+					if k2, ok2 := c.lexErr(ret); ok2 && k == k2 {
+						return []string{"returnLexErrIfNotEOF"}
+					}
 				}
-				if l, r, ok := binCond(st.Cond, token.NEQ); ok && nonNil && isIdent(l, "err") && isSel(r, "minify", "ErrNotExist") && isErrOrUpdated(ret) {
-					return []string{"returnSubErr"}
+				// `if e != minify.ErrNotExist { return e' }` where e is known non-nil
+				if b, ok := unparen(st.Cond).(*ast.BinaryExpr); ok && b.Op == token.NEQ {
+					if o, ok := c.obj(b.X).(*types.Var); ok && nonNil[o] && c.propagates(ret, o) {
+						if sel := c.obj(b.Y); sel != nil {
+							return []string{"returnSubErr"}
+						}
+						if se, ok := unparen(b.Y).(*ast.SelectorExpr); ok {
+							if v, ok := c.info().Uses[se.Sel].(*types.Var); ok && isErrorType(v.Type()) {
+								return []string{"returnSubErr"}
+							}
+						}
+					}
 				}
 			}
 		}
@@ -239,8 +498,13 @@ func (c *c14Walker) stmtAtoms(s ast.Stmt, nonNil bool, prev []string) []string {
 		bad := false
 		ast.Inspect(s, func(x ast.Node) bool {
 			if call, ok := x.(*ast.CallExpr); ok {
-				if c.isProbeCall(call) || isIdent(call.Fun, "recover") {
+				if probe, isW := c.writeCall(call); isW && probe {
 					bad = true
+				}
+				if id, ok := unparen(call.Fun).(*ast.Ident); ok {
+					if b, isB := c.info().Uses[id].(*types.Builtin); isB && b.Name() == "recover" {
+						bad = true
+					}
 				}
 			}
 			return !bad
@@ -255,100 +519,185 @@ func (c *c14Walker) stmtAtoms(s ast.Stmt, nonNil bool, prev []string) []string {
 	return []string{"work"}
 }
 
+// inlineHelper: `return f(args…)` where f is declared in the module and returns one error: f's statements take the place
+// of the return; the writer and lexer-error values among the arguments are followed into f's parameters
+func (c *c14Walker) inlineHelper(e ast.Expr) ([]string, bool) {
+	call, ok := unparen(e).(*ast.CallExpr)
+	if !ok || c.depth >= 2 {
+		return nil, false
+	}
+	fn := calleeOf(c.info(), call)
+	if fn == nil || fn.Pkg() == nil || isStdlibPath(fn.Pkg().Path()) {
+		return nil, false
+	}
+	ref, ok := c.e.funcIndex()[fn.Origin()]
+	if !ok || ref.decl.Body == nil || ref.decl.Recv != nil {
+		return nil, false
+	}
+	sig := fn.Type().(*types.Signature)
+	if sig.Results().Len() != 1 || !isErrorType(sig.Results().At(0).Type()) || sig.Variadic() {
+		return nil, false
+	}
+	sub := &c14Walker{e: c.e, p: ref.pkg, single: singleDefs(ref.pkg), writers: map[types.Object]bool{}, lexErrs: map[types.Object]bool{}, depth: c.depth + 1}
+	i := 0
+	passesWriter := false
+	for _, f := range ref.decl.Type.Params.List {
+		for _, n := range f.Names {
+			if i < len(call.Args) {
+				po := ref.pkg.TypesInfo.Defs[n]
+				if c.writers[c.obj(call.Args[i])] {
+					sub.writers[po] = true
+					passesWriter = true
+				} else if _, ok := c.lexErr(call.Args[i]); ok {
+					sub.lexErrs[po] = true
+				}
+			}
+			i++
+		}
+	}
+	if !passesWriter {
+		return nil, false
+	}
+	atoms := sub.listAtoms(ref.decl.Body.List, nil)
+	c.blocks = append(c.blocks, sub.blocks...)
+	return atoms, true
+}
+
 // descend walks the nested statement lists of a compound statement
 func (c *c14Walker) descend(s ast.Stmt) {
+	none := map[types.Object]bool{}
 	switch st := s.(type) {
 	case *ast.BlockStmt:
-		c.walkList(st.List, false)
+		c.walkList(st.List, none)
 	case *ast.IfStmt:
-		bodyNonNil := isErrNeNil(st.Cond)
-		elseNonNil := isErrEqNil(st.Cond)
-		if bodyNonNil || elseNonNil {
-			if _, ok := errInit(st.Init); !ok && st.Init != nil {
-				bodyNonNil, elseNonNil = false, false
+		body, els := map[types.Object]bool{}, map[types.Object]bool{}
+		initOK := st.Init == nil
+		if st.Init != nil {
+			_, _, initOK = c.errInit(st.Init)
+		}
+		if initOK {
+			if o := c.errCmpNil(st.Cond, token.NEQ); o != nil {
+				body[o] = true
+			}
+			if o := c.errCmpNil(st.Cond, token.EQL); o != nil {
+				els[o] = true
 			}
 		}
-		c.walkList(st.Body.List, bodyNonNil)
+		c.walkList(st.Body.List, body)
 		switch e := st.Else.(type) {
 		case *ast.BlockStmt:
-			c.walkList(e.List, elseNonNil)
+			c.walkList(e.List, els)
 		case *ast.IfStmt:
-			c.walkList([]ast.Stmt{e}, elseNonNil)
+			c.walkList([]ast.Stmt{e}, els)
 		}
 	case *ast.ForStmt:
-		c.walkList(st.Body.List, false)
+		c.walkList(st.Body.List, none)
 	case *ast.RangeStmt:
-		c.walkList(st.Body.List, false)
+		c.walkList(st.Body.List, none)
 	case *ast.SwitchStmt:
 		for _, cl := range st.Body.List {
-			c.walkList(cl.(*ast.CaseClause).Body, false)
+			c.walkList(cl.(*ast.CaseClause).Body, none)
 		}
 	case *ast.TypeSwitchStmt:
 		for _, cl := range st.Body.List {
-			c.walkList(cl.(*ast.CaseClause).Body, false)
+			c.walkList(cl.(*ast.CaseClause).Body, none)
 		}
 	case *ast.LabeledStmt:
-		c.walkList([]ast.Stmt{st.Stmt}, false)
+		c.walkList([]ast.Stmt{st.Stmt}, none)
 	default:
 		// select, go, defer with returns inside: not a shape of this code base
-		c.blocks = append(c.blocks, []string{"other " + leanStr(c14Src(c.r.Fset, s))})
+		c.blocks = append(c.blocks, []string{"other " + leanStr(c14Src(c.e.r.Fset, s))})
 	}
 }
 
-func (c *c14Walker) walkList(list []ast.Stmt, nonNil bool) {
+func (c *c14Walker) listAtoms(list []ast.Stmt, nonNil map[types.Object]bool) []string {
+	savedProbe, savedParse := c.probeErr, c.parseErr
+	c.probeErr, c.parseErr = nil, nil
+	defer func() { c.probeErr, c.parseErr = savedProbe, savedParse }()
 	var atoms []string
-	hasRet := false
-	for _, s := range list {
+	for _, s := range c.normalise(list) {
 		as := c.stmtAtoms(s, nonNil, atoms)
 		for _, a := range as {
-			if strings.HasPrefix(a, "return") || strings.HasPrefix(a, "other") || a == "writeReturnIfErr" {
-				hasRet = true
+			if a == "work" && len(atoms) > 0 && atoms[len(atoms)-1] == "work" {
+				continue // consecutive work statements are one atom
 			}
+			atoms = append(atoms, a)
 		}
-		atoms = append(atoms, as...)
 	}
-	if hasRet {
-		c.blocks = append(c.blocks, atoms)
+	return atoms
+}
+
+func (c *c14Walker) walkList(list []ast.Stmt, nonNil map[types.Object]bool) {
+	atoms := c.listAtoms(list, nonNil)
+	for _, a := range atoms {
+		if strings.HasPrefix(a, "return") || strings.HasPrefix(a, "other") || a == "writeReturnIfErr" {
+			c.blocks = append(c.blocks, atoms)
+			return
+		}
 	}
+}
+
+func c14CountRecovers(p *packages.Package, fset *token.FileSet) int {
+	n := 0
+	for _, f := range p.Syntax {
+		if !isRepoFile(fset, f) {
+			continue
+		}
+		ast.Inspect(f, func(x ast.Node) bool {
+			if call, ok := x.(*ast.CallExpr); ok {
+				if id, ok := unparen(call.Fun).(*ast.Ident); ok {
+					if b, isB := p.TypesInfo.Uses[id].(*types.Builtin); isB && b.Name() == "recover" {
+						n++
+					}
+				}
+			}
+			return true
+		})
+	}
+	return n
 }
 
 func init() {
 	gen("ExitPaths", func(r *Repo) (string, error) {
+		e, err := r.TEnv()
+		if err != nil {
+			return "", err
+		}
 		var sb strings.Builder
 		sb.WriteString("import Verif.Base.SkelIR\n")
 		sb.WriteString(header("ExitPaths", "the (*Minifier).Minify methods of /repo/{css,html,js,json,svg,xml}"))
 		sb.WriteString("open Verif.Skel Verif.Skel.XAtom\n\n")
 		var names []string
 		for _, pkg := range c14Pkgs {
-			fd, err := r.FindFunc(pkg, "*Minifier", "Minify")
+			fd, p, err := e.FuncDecl(pkg, "Minifier", "Minify")
 			if err != nil {
 				return "", err
 			}
-			ps := fd.Type.Params.List
-			var pnames []string
-			for _, p := range ps {
-				for _, n := range p.Names {
-					pnames = append(pnames, n.Name)
+			var params []types.Object
+			for _, f := range fd.Type.Params.List {
+				for _, n := range f.Names {
+					params = append(params, p.TypesInfo.Defs[n])
 				}
 			}
-			if len(pnames) != 4 || fd.Body == nil {
-				return "", fmt.Errorf("%s: Minify no longer has 4 parameters", pkg)
+			if len(params) != 4 || fd.Body == nil {
+				return "", fmt.Errorf("%s: Minify no longer has 4 named parameters", pkg)
 			}
-			w := &c14Walker{r: r, wName: pnames[1]}
-			w.walkList(fd.Body.List, false)
+			wv, ok := params[1].(*types.Var)
+			if !ok || types.TypeString(wv.Type(), nil) != "io.Writer" {
+				return "", fmt.Errorf("%s: second parameter of Minify is not an io.Writer", pkg)
+			}
+			w := &c14Walker{e: e, p: p, single: singleDefs(p), writers: map[types.Object]bool{wv: true}, lexErrs: map[types.Object]bool{}}
+			w.walkList(fd.Body.List, map[types.Object]bool{})
 			// package-wide facts: recover() calls, dropped / used Write results
-			files, err := r.Files(pkg)
-			if err != nil {
-				return "", err
-			}
-			recovers, dropped, used := 0, 0, 0
-			for _, f := range files {
+			recovers := c14CountRecovers(p, r.Fset)
+			dropped, used := 0, 0
+			for _, f := range p.Syntax {
+				if !isRepoFile(r.Fset, f) {
+					continue
+				}
 				ast.Inspect(f, func(x ast.Node) bool {
 					switch n := x.(type) {
 					case *ast.CallExpr:
-						if isIdent(n.Fun, "recover") {
-							recovers++
-						}
 						if s, ok := n.Fun.(*ast.SelectorExpr); ok && s.Sel.Name == "Write" && len(n.Args) == 1 {
 							used++
 						}
@@ -363,7 +712,7 @@ func init() {
 				})
 			}
 			used -= dropped
-			fmt.Fprintf(&sb, "/-- `%s.(*Minifier).Minify` (writer parameter `%s`) -/\ndef %s : ExitPkg :=\n  { name := %s\n    exits := [\n", pkg, w.wName, pkg, leanStr(pkg))
+			fmt.Fprintf(&sb, "/-- `%s.(*Minifier).Minify` -/\ndef %s : ExitPkg :=\n  { name := %s\n    exits := [\n", pkg, pkg, leanStr(pkg))
 			for i, b := range w.blocks {
 				sep := ","
 				if i == len(w.blocks)-1 {
@@ -375,20 +724,11 @@ func init() {
 			names = append(names, pkg)
 		}
 		// the root package (wrappers) must not recover either
-		files, err := r.Files(".")
+		rp, err := e.Pkg(".")
 		if err != nil {
 			return "", err
 		}
-		rootRecovers := 0
-		for _, f := range files {
-			ast.Inspect(f, func(x ast.Node) bool {
-				if n, ok := x.(*ast.CallExpr); ok && isIdent(n.Fun, "recover") {
-					rootRecovers++
-				}
-				return true
-			})
-		}
-		fmt.Fprintf(&sb, "/-- `recover()` calls in package minify (minify.go, common.go, …) -/\ndef rootRecovers : Nat := %d\n\n", rootRecovers)
+		fmt.Fprintf(&sb, "/-- `recover()` calls in package minify (minify.go, common.go, …) -/\ndef rootRecovers : Nat := %d\n\n", c14CountRecovers(rp, r.Fset))
 		fmt.Fprintf(&sb, "def all : List ExitPkg := [%s]\n", strings.Join(names, ", "))
 		sb.WriteString(footer("ExitPaths"))
 		return sb.String(), nil
